@@ -30,6 +30,9 @@ CHECKS = {
  "C09": ("exploration", "bounded exhaustive enumeration of subquery forms x (outer, inner) databases vs per-outer-row reference evaluation",
    "About 290 subquery forms (scalar / EXISTS / IN / ANY / ALL / LATERAL x WHERE / SELECT / CASE / HAVING x correlation through filter, projection, aggregates, LIMIT 1, DISTINCT, join, nested) x all pairs of bags with <=2 (quick) / <=3 (thorough) rows over {NULL,1,2}^2, optimizer on and off, against RM which evaluates the subquery once per outer row; 9 definitions x 8 uses rendered inline / CTE / MATERIALIZED / chained / view / view^3 must agree.",
    "RM is the property's own definition (nested evaluation); views are created in a fresh engine per database because DROP VIEW is not implemented."),
+ "C11": ("exploration", "bounded exhaustive differential enumeration of (file statistics, predicate, projection) and (directory tree, glob) vs unpruned scan, TEMP-table copy, harness model and reference glob matcher",
+   "pqgen files with 15 column types (signed / unsigned integer annotations crossing the sign bit, DATE, DECIMAL, FLOAT/DOUBLE with NaN, UTF8, BOOLEAN) x 3 value layouts over 3 row groups incl. a NULL-only group (thorough: 4 row-group layouts) x statistics {exact, absent, flagged inexact / truncated, deprecated signed-order min/max} x ~900 predicates per file (every comparison of the column with every constant of its alphabet, between / outside it, typed and implicitly cast; BETWEEN, IN, IS [NOT] DISTINCT FROM, AND/OR pairs, other-column conjuncts) x projection lists: the pushed-down scan must equal the scan with the optimizer off, the same query on a TEMP-table copy of the file and (for alphabet constants) row ids computed by the harness, also with 3 partitions and batch size 3. 3 VerifFs directory trees x ~15 glob patterns (* ? [..] {..} ** and colliding names) x {glob(), read_parquet, read_csv} x partitions {1,3,8} and explicit lists: the listing equals a reference matcher, each file once, rows = multiset union of single-file scans, per-_filename counts.",
+   "Statistics that are not bounds of the chunk's values are not generated (invalid file). A one-sided run-time cast error is tolerated (the skipped work contained the failing evaluation). `**` is undocumented: listings between the one-or-more and zero-or-more directory readings are accepted."),
  "C12": ("exploration", "bounded exhaustive enumeration of operand pairs vs exact big-integer arithmetic",
    "+,-,*,/,% on all 8 integer types (all 65 536 pairs for the 8-bit types in the thorough tier, boundary^2 otherwise), unary minus over the full 8/16-bit domains, decimal +,-,* over (p,s) x (p,s) x boundary values, SUM/AVG overflow bags; the exact result fitted into the announced type must be returned, otherwise the statement must fail with an error.",
    "The engine-announced result type is taken as given; decimal division (Float64 result) is not asserted."),
@@ -60,7 +63,6 @@ CHECKS = {
 }
 
 NA = {
- "C11": "No check is committed for scan pushdown / statistics pruning / multi-file globbing in this snapshot: the explorer (pqgen files with exact / lying / missing statistics x predicates x projections x glob layouts over VerifFs, differential against the unpruned scan) is designed in DESIGN.md but not built; nothing is claimed for it.",
  "C16": "Memory safety of unsafe buffer code is not a property a bounded exhaustive exploration decides on its own: it needs a monitor (Miri / ASan) under the explorer. All checks run with debug assertions and overflow checks on, which catches index and arithmetic violations as panics, but no Miri / sanitizer run is wired into a registered command in this snapshot, so the property is not claimed.",
 }
 
@@ -85,9 +87,9 @@ def main():
         "setup_cmd": "cd /verif/harness && CARGO_NET_OFFLINE=true RUST_BACKTRACE=0 cargo build --release --offline",
         "hooks": {
             "guard": "--cfg glaredb_verif",
-            "enable": "rustflags --cfg glaredb_verif in /verif/harness/.cargo/config.toml; the harness crate path-depends on /repo/crates/* and /verif/bin/vcheck rebuilds it from /repo's working tree before every check. No guarded source change exists in /repo so far: every check runs against unmodified production code through public traits (PipelineRuntime, FileSystem).",
+            "enable": "rustflags --cfg glaredb_verif in /verif/harness/.cargo/config.toml; the harness crate path-depends on /repo/crates/* and /verif/bin/vcheck rebuilds it from /repo's working tree before every check. Guarded source changes: H0 (lint declaration of the cfg) and H2 (scheduling points, ScheduleState transition log and a rayon::ThreadPool stand-in in crates/glaredb_rt_native/src/threaded, used only by C04's thread-level explorer); every other check runs against unmodified production code through public traits (PipelineRuntime, FileSystem).",
             "baseline_off_cmd": "/verif/bin/baseline_off.sh /repo",
-            "source_commits": [c for c in commits if c and not c.split(" ",1)[1].startswith("fix:")],
+            "source_commits": [c for c in commits if c and c.split(" ",1)[1].startswith("verif hook")],
             "add_only": True,
         },
         "engines": [{"name": "vharness", "path": "/verif/harness", "serves_properties": sorted(CHECKS), "kind_free_text": "Rust harness that implements GlareDB's PipelineRuntime (it is the scheduler) and FileSystem (it is the OS); bounded exhaustive enumeration of programs x databases x configurations x schedules x faults against a reference model, run in a supervised child process (hang / abort isolation)"}],
